@@ -14,6 +14,10 @@ Model: Model/Sched.lean (`SyncState.change`, `mark_changed`, the `priority` bran
   code's eligibility test is a disjunction over the two sides.  Replaced by
   `ageing_respected_partial` (the other side carries no change) and refuted by the kernel-checked
   `ageing_two_sided`, which the harness replays on the real engine (known finding two-sided-ageing).
+* the changeset as a *derived* object, the fill-in loop of `change`, and the loop-level liveness law are in
+  Props/C17State.lean and Props/C17Loop.lean.
+* `punt_bounded_delay` is about a side that has an id: a punt may drop the stale change flag of an id-less side
+  (state.py:798-800, "a change that is not in the changeset").
 * `age_zero_all_eligible` needs "no timestamp of the entry lies in the future"; `age_zero_punt_example`
   shows that punting (and the +0.001 clock rule) breaks that hypothesis for `punt_secs` seconds.
 -/
@@ -125,56 +129,21 @@ theorem age_zero_punt_example :
 /-! ## punting -/
 
 /-- the state-level `ent.punt()` has exactly the entry-level effect `puntE` -/
-theorem setSide_side (e : Entry) (s : Bool) : e.setSide s (e.side s) = e := by
-  cases s <;> rfl
-
-theorem setChanged_get? (st : St) (id : Nat) (s : Bool) (v : Option Rat) (e : Entry) (h : st.get? id = some e) :
-    (setChanged st id s v).get? id = some (e.setSide s { e.side s with changed := v }) ∧
-    (setChanged st id s v).punt = st.punt := by
-  have hid : ∀ x : Entry, (x.setSide s { x.side s with changed := v }).id = x.id := by
-    intro x; cases s <;> rfl
-  simp only [setChanged, h]
-  constructor
-  · rw [get?_mapId_same _ _ _ hid]
-    split
-    · rw [get?_add, h]; rfl
-    · split
-      · show Option.map _ ((st.discard id).get? id) = _
-        rw [get?_discard, h]; rfl
-      · rw [get?_discard, h]; rfl
-  · split
-    · simp only [St.mapId, St.add]; split <;> rfl
-    · split <;> rfl
-
-theorem bumpSt_get? (st : St) (id : Nat) (s : Bool) (e : Entry) (h : st.get? id = some e) :
-    (bumpSt st id s).get? id = some (e.setSide s (bump (e.side s) (if s then st.punt.2 else st.punt.1))) ∧
-    (bumpSt st id s).punt = st.punt := by
-  simp only [bumpSt, h, bump]
-  split
-  · exact setChanged_get? st id s _ e h
-  · exact ⟨by rw [setSide_side]; exact h, rfl⟩
-
 theorem opPunt_entry (st : St) (id : Nat) (e : Entry) (h : st.get? id = some e) :
     (opPunt st id).get? id = some (puntE st.punt e) := by
-  have hne : (e.priority == e.priority + 1) = false := by
-    simp only [beq_eq_false_iff_ne, ne_eq]; intro h; linarith
-  have hid : ∀ x : Entry, ({ x with priority := e.priority + 1 } : Entry).id = x.id := fun _ => rfl
-  simp only [opPunt, h, setPriority, hne, Bool.false_eq_true, if_false, puntE, setPriorityE]
-  rw [get?_mapId_same _ _ _ hid]
-  split
-  · obtain ⟨h1, p1⟩ := bumpSt_get? st id false e h
-    obtain ⟨h2, _⟩ := bumpSt_get? _ id true _ h1
-    rw [h2, p1]
-    simp [Entry.setSide, Entry.side]
-  · rw [h]; rfl
+  simp only [opPunt]
+  rw [withE_get?_same st id _ e h (setPriorityA_id _ _ _)]
+  rfl
 
-/-- an entry punted `k` times is eligible again once `now ≥ changed + k·punt_secs + age`:
-    the delay caused by deferring is bounded -/
+/-- an entry punted `k` times is eligible again once `now ≥ changed + k·punt_secs + age`: the delay
+    caused by deferring is bounded.  (The side must have an id: the stale change flag of an id-less
+    side can be dropped by a punt — "a change that is not in the changeset", state.py:798-800.) -/
 theorem punt_bounded_delay (p : Rat × Rat) (s : Bool) (hp : 0 ≤ (if s then p.2 else p.1))
     (e : Entry) (c : Rat) (hc : (e.side s).changed = some c) (hpos : 0 < c)
+    (ho : truthyS (e.side s).oid = true)
     (k : Nat) (now age : Rat) (hnow : c + k * (if s then p.2 else p.1) + age ≤ now) :
     eligible (puntK p k e) now age = true := by
-  obtain ⟨j, hj, hch⟩ := puntK_side p s hp k e c hc hpos
+  obtain ⟨j, hj, hch⟩ := puntK_side p s hp k e c hc hpos ho
   have hjk : (j : Rat) * (if s then p.2 else p.1) ≤ k * (if s then p.2 else p.1) :=
     mul_le_mul_of_nonneg_right (by exact_mod_cast hj) hp
   have hj0 : 0 ≤ (j : Rat) * (if s then p.2 else p.1) := mul_nonneg (by exact_mod_cast Nat.zero_le j) hp
@@ -189,12 +158,13 @@ theorem punt_bounded_delay (p : Rat × Rat) (s : Bool) (hp : 0 ≤ (if s then p.
 /-- … hence, whatever else is pending, `change` returns something from that moment on -/
 theorem punt_bounded_delay_change (p : Rat × Rat) (s : Bool) (hp : 0 ≤ (if s then p.2 else p.1))
     (e : Entry) (c : Rat) (hc : (e.side s).changed = some c) (hpos : 0 < c)
+    (ho : truthyS (e.side s).oid = true)
     (k : Nat) (now age : Rat) (hnow : c + k * (if s then p.2 else p.1) + age ≤ now)
     (P : List Entry) (hP : puntK p k e ∈ P) :
     change P now age ≠ none := by
   intro h
   rw [change_none_iff_no_eligible] at h
-  have := punt_bounded_delay p s hp e c hc hpos k now age hnow
+  have := punt_bounded_delay p s hp e c hc hpos ho k now age hnow
   rw [h _ hP] at this
   exact absurd this (by simp)
 
@@ -226,37 +196,22 @@ theorem stamp_gt (last now : Rat) : last < stamp last now ∧ now ≤ stamp last
     · linarith
     · exact le_refl _
 
-theorem get?_mapId_isSome (st : St) (id j : Nat) (f : Entry → Entry) (hf : ∀ e, (f e).id = e.id) :
-    ((st.mapId id f).get? j).isSome = (st.get? j).isSome := by
-  simp only [St.get?, St.mapId]
-  induction st.ents with
-  | nil => rfl
-  | cons a l ih =>
-    simp only [List.map_cons, List.find?_cons]
-    have : ((if (a.id == id) = true then f a else a).id == j) = (a.id == j) := by
-      split
-      · rw [hf]
-      · rfl
-    rw [this]
-    cases (a.id == j) with
-    | true => rfl
-    | false => exact ih
+@[simp] theorem markA_id (last now : Rat) (e : Entry) (s : Bool) : (markA last now e s).1.id = e.id := by
+  simp only [markA]; split <;> simp
 
-theorem setChanged_isSome (st : St) (id : Nat) (s : Bool) (v : Option Rat) (j : Nat) :
-    ((setChanged st id s v).get? j).isSome = (st.get? j).isSome ∧ (setChanged st id s v).last = st.last := by
-  have hid : ∀ x : Entry, (x.setSide s { x.side s with changed := v }).id = x.id := by
-    intro x; cases s <;> rfl
-  simp only [setChanged]
-  split
-  · exact ⟨rfl, rfl⟩
-  · constructor
-    · rw [get?_mapId_isSome _ _ _ _ hid]
-      split
-      · rw [get?_add]
-      · split <;> rfl
-    · split
-      · simp only [St.mapId, St.add]; split <;> rfl
-      · split <;> rfl
+theorem markA_changed (last now : Rat) (e : Entry) (s : Bool) :
+    ((markA last now e s).1.side s).changed = some (stamp last now) := by
+  simp only [markA, stamp]
+  split <;> simp [setChangedA_self]
+
+theorem withE_isSome (st : St) (id j : Nat) (f : Entry → Entry × Acts) (hf : ∀ e, (f e).1.id = e.id) :
+    ((st.withE id f).get? j).isSome = (st.get? j).isSome := by
+  by_cases hj : j = id
+  · subst hj
+    cases h : st.get? j with
+    | none => rw [withE_none _ _ _ h, h]
+    | some e => rw [withE_get?_same st j f e h (hf e)]; rfl
+  · rw [withE_get?_other st id j f hf hj]
 
 /-- `mark_changed` on an existing entry issues `stamp last now`: later than every stamp issued
     before, not earlier than the clock reading, and that is what the side's `changed` becomes -/
@@ -266,33 +221,18 @@ theorem markChanged_stamp (st : St) (s : Bool) (id : Nat) (now : Rat) (e : Entry
     ((markChanged st s id now).get? id).map (fun e => (e.side s).changed) = some (some (stamp st.last now)) := by
   refine ⟨by simp only [markChanged, h], by simp only [markChanged, h]; exact (stamp_gt _ _).1,
     by simp only [markChanged, h]; exact (stamp_gt _ _).2, ?_⟩
-  have hside : ∀ (x : Entry) (v : Option Rat), ((x.setSide s { x.side s with changed := v }).side s).changed = v := by
-    intro x v; cases s <;> rfl
-  obtain ⟨h1, _⟩ := setChanged_get? st id s (some now) e h
-  simp only [markChanged, h, stamp]
-  by_cases hle : now ≤ st.last
-  · simp only [hle, if_true]
-    obtain ⟨h2, _⟩ := setChanged_get? _ id s (some (st.last + 1/1000)) _ h1
-    show Option.map _ (St.get? _ id) = _
-    simp only [St.get?] at h2 ⊢
-    rw [h2]
-    simp [hside]
-  · simp only [hle, if_false]
-    show Option.map _ (St.get? _ id) = _
-    simp only [St.get?] at h1 ⊢
-    rw [h1]
-    simp [hside]
+  simp only [markChanged, h]
+  show Option.map _ ((st.withE id _).get? id) = _
+  rw [withE_get?_same st id _ e h (markA_id _ _ _ _)]
+  simp [markA_changed]
 
 theorem markChanged_isSome (st : St) (s : Bool) (id : Nat) (now : Rat) (j : Nat) :
     ((markChanged st s id now).get? j).isSome = (st.get? j).isSome := by
   simp only [markChanged]
   split
   · rfl
-  · split
-    · show ((setChanged (setChanged st id s (some now)) id s _).get? j).isSome = _
-      rw [(setChanged_isSome _ id s _ j).1, (setChanged_isSome _ id s _ j).1]
-    · show ((setChanged st id s (some now)).get? j).isSome = _
-      rw [(setChanged_isSome _ id s _ j).1]
+  · show ((st.withE id _).get? j).isSome = _
+    exact withE_isSome st id j _ (fun e => markA_id _ _ e s)
 
 /-- the value of `_last_changed_time` after each call of a run of `mark_changed` calls
     `(side, entry, clock reading)` -/
@@ -326,6 +266,14 @@ theorem markChanged_strictly_increasing (ops : List (Bool × Nat × Rat)) (st : 
 
 /-! ## finished: priority reset of related entries -/
 
+theorem setPriorityE_zero (p : Rat × Rat) (e : Entry) (hpos : 0 < e.priority) :
+    setPriorityE p e 0 = { e with priority := 0 } := by
+  have hne : (e.priority == 0) = false := by
+    simp only [beq_eq_false_iff_ne, ne_eq]; exact ne_of_gt hpos
+  have hng : ¬ (0 > e.priority) := not_lt_of_gt hpos
+  simp only [setPriorityE, setPriorityA, hne, Bool.false_eq_true, if_false, gt_iff_lt, hng, decide_false,
+    Bool.false_and]
+
 /-- `finished` never moves a change time, and only ever turns a positive priority into 0 -/
 theorem finished_entries (dn : String → String) (st : St) (id : Nat) :
     ∀ e' ∈ (opFinished dn st id).ents, ∃ e ∈ st.ents, e'.id = e.id ∧ e'.l = e.l ∧ e'.r = e.r ∧
@@ -343,15 +291,8 @@ theorem finished_entries (dn : String → String) (st : St) (id : Nat) :
       · rename_i hcond
         simp only [Bool.and_eq_true, decide_eq_true_eq] at hcond
         have hpos : 0 < e.priority := hcond.2.1
-        have hne : (e.priority == 0) = false := by
-          simp only [beq_eq_false_iff_ne, ne_eq]; exact ne_of_gt hpos
-        have hng : ¬ (0 > e.priority) := not_lt_of_gt hpos
         subst heq
-        have hs : ∀ p, setPriorityE p e 0 = { e with priority := 0 } := by
-          intro p
-          simp only [setPriorityE, hne, Bool.false_eq_true, if_false, gt_iff_lt, hng, decide_false,
-            Bool.false_and]
-        rw [hs]
+        rw [setPriorityE_zero _ _ hpos]
         exact ⟨rfl, rfl, rfl, Or.inr ⟨hpos, rfl⟩⟩
       · subst heq; exact ⟨rfl, rfl, rfl, Or.inl rfl⟩
 
@@ -371,17 +312,14 @@ theorem finished_keeps_nonpositive (dn : String → String) (st : St) (id : Nat)
     normal priority -/
 theorem finished_resets_related (dn : String → String) (st : St) (id : Nat) (ent e : Entry)
     (hent : st.get? id = some ent) (hdone : truthy ent.l.changed = false ∧ truthy ent.r.changed = false)
-    (he : e ∈ st.ents) (hpend : (st.discard id).pending.contains e.id = true)
+    (he : e ∈ st.ents) (hpend : (st.act id [false]).pending.contains e.id = true)
     (hpos : 0 < e.priority) (hrel : related dn ent e = true) :
     { e with priority := 0 } ∈ (opFinished dn st id).ents := by
-  have hne : (e.priority == 0) = false := by
-    simp only [beq_eq_false_iff_ne, ne_eq]; exact ne_of_gt hpos
-  have hng : ¬ (0 > e.priority) := not_lt_of_gt hpos
   simp only [opFinished, hent, hdone.1, hdone.2, Bool.or_self, Bool.false_eq_true, if_false, List.mem_map]
   refine ⟨e, he, ?_⟩
-  have hp' : (st.discard id).pending.contains e.id = true := hpend
-  simp only [hp', hrel, hpos, decide_true, Bool.and_self, if_true, setPriorityE, hne, Bool.false_eq_true,
-    if_false, gt_iff_lt, hng, decide_false, Bool.false_and]
+  have hp' : (st.act id [false]).pending.contains e.id = true := hpend
+  simp only [hp', hrel, hpos, decide_true, Bool.and_self, if_true]
+  exact setPriorityE_zero _ _ hpos
 
 /-! ## the ageing law -/
 
@@ -450,7 +388,9 @@ example : ∃ (P : List Entry) (now age : Rat) (e : Entry),
   ⟨[{ id := 0, l := { changed := some 1000 } }], 1010, 10, { id := 0, l := { changed := some 1000 } },
     by decide +kernel, by decide +kernel, by decide +kernel, by decide +kernel⟩
 
-example : ∃ (p : Rat × Rat) (e : Entry) (c : Rat), 0 ≤ p.1 ∧ (e.side false).changed = some c ∧ 0 < c :=
-  ⟨(1/4, 1/4), { id := 0, l := { changed := some 1000 } }, 1000, by decide +kernel, rfl, by decide +kernel⟩
+example : ∃ (p : Rat × Rat) (e : Entry) (c : Rat), 0 ≤ p.1 ∧ (e.side false).changed = some c ∧ 0 < c ∧
+    truthyS (e.side false).oid = true :=
+  ⟨(1/4, 1/4), { id := 0, l := { changed := some 1000, oid := some "L1" } }, 1000, by decide +kernel, rfl,
+    by decide +kernel, by decide +kernel⟩
 
 end CS.Sched
